@@ -41,7 +41,7 @@ GRACE_S = 60
 FINDING = 'C18-torn-overwrite-unpickle-escapes'
 
 N = {'quick': dict(payloads=32, keys=5, rec=52, recx=6, conc=12, users=3, realkills=1),
-     'thorough': dict(payloads=600, keys=60, rec=2000, recx=90, conc=500, users=6, realkills=3)}
+     'thorough': dict(payloads=400, keys=45, rec=1400, recx=70, conc=320, users=6, realkills=3)}
 
 CORE = [('scalar', 0), ('scalar', 6), ('scalar', 12), ('scalar', 16), ('scalar', 18), ('scalar', 19), ('scalar', 20),
         ('nested', 1), ('nested', 2), ('nested', 3), ('nested', 4),
